@@ -167,6 +167,37 @@ def _check_nonfinite_then_reset(rng):
   return fails
 
 
+def _check_nested_multimetric(rng):
+  """a MultiMetric that groups metrics in a sub-MultiMetric: reset() reaches every metric below it"""
+  from flax import nnx
+  import jax.numpy as jnp
+  fails = []
+  x1 = (rng.randn(10) * 2.0 + 5.0).astype(np.float32)
+  x2 = (rng.randn(14) - 1.0).astype(np.float32)
+  for layout in ('flat', 'grouped', 'grouped twice'):
+    if layout == 'flat':
+      m = nnx.MultiMetric(loss=nnx.metrics.Average(), wf=nnx.metrics.Welford())
+      get = lambda out: (float(out['loss']), float(out['wf'].mean))
+    elif layout == 'grouped':
+      m = nnx.MultiMetric(group=nnx.MultiMetric(loss=nnx.metrics.Average()), wf=nnx.metrics.Welford())
+      get = lambda out: (float(out['group']['loss']), float(out['wf'].mean))
+    else:
+      m = nnx.MultiMetric(outer=nnx.MultiMetric(inner=nnx.MultiMetric(loss=nnx.metrics.Average(), wf=nnx.metrics.Welford())))
+      get = lambda out: (float(out['outer']['inner']['loss']), float(out['outer']['inner']['wf'].mean))
+    for part in (x1[:4], x1[4:]):
+      m.update(values=jnp.asarray(part))
+    first = get(m.compute())
+    m.reset()
+    for part in (x2[:9], x2[9:]):
+      m.update(values=jnp.asarray(part))
+    second = get(m.compute())
+    for tag, got, ref in (('first epoch', first, float(np.mean(x1))), ('after reset()', second, float(np.mean(x2)))):
+      if any(not np.isfinite(g) or abs(g - ref) > 2e-3 * max(1.0, abs(ref)) for g in got):
+        fails.append(dict(inputs=dict(metric='MultiMetric', layout=layout, phase=tag), observed=f'mean loss / Welford mean = {got}; the values since the last reset have mean {ref!r}', violated='since-last-reset'))
+        return fails
+  return fails
+
+
 def _stream(rng, n, drift):
   # with drift the batch means differ from the running mean (the between-batch term matters)
   x = rng.randn(n) * 1.8 + 0.7
@@ -204,6 +235,9 @@ def run(tier, seed):
     cases += 24
     fails += _check_nonfinite_then_reset(np.random.RandomState(9 + seed))
   if not fails:
+    cases += 6
+    fails += _check_nested_multimetric(np.random.RandomState(11 + seed))
+  if not fails:
     for n in (12, 64):
       for parts in _partitions(n, seed) + [[5, 5, 2][:3] if n == 12 else [30, 30, 4]]:
         for after_reset in (False, True):
@@ -215,11 +249,13 @@ def run(tier, seed):
           break
       if fails:
         break
-  return dict(name=NAME, cases=cases, distinct=len(distinct), bound='streams of 7..140000 float32 values x 5-8 partitions x fresh/after-reset; Accuracy (multi-class, thresholded, inside MultiMetric) on streams of 12 / 64 examples x 9 partitions (ragged) x fresh/after-reset; 24 values as python scalars / 0-d / 1-d / 2-d / 3-d update arrays; an epoch containing inf / -inf / nan followed by 1-2 resets and 24 finite values',
+  return dict(name=NAME, cases=cases, distinct=len(distinct), bound='streams of 7..140000 float32 values x 5-8 partitions x fresh/after-reset; Accuracy (multi-class, thresholded, inside MultiMetric) on streams of 12 / 64 examples x 9 partitions (ragged) x fresh/after-reset; 24 values as python scalars / 0-d / 1-d / 2-d / 3-d update arrays; an epoch containing inf / -inf / nan followed by 1-2 resets and 24 finite values; MultiMetric flat / grouped / grouped twice over two epochs with a reset',
               failures=fails[:3], error=None)
 
 
 def replay(inputs):
+  if 'layout' in inputs:
+    return not _check_nested_multimetric(np.random.RandomState(11))
   if 'before_reset' in inputs:
     return not _check_nonfinite_then_reset(np.random.RandomState(9))
   if 'value_shapes' in inputs:
